@@ -146,9 +146,11 @@ func raceSignature(rep string) (string, bool) {
 		var fr []string
 		for _, m := range frameRe.FindAllStringSubmatch(s+"\n", -1) {
 			fn := m[1]
-			fr = append(fr, fn)
 			if strings.Contains(fn, "github.com/paulmach/osm") {
 				lib = true
+				fr = append(fr, fn) // the key names library frames only, so harness refactors do not change it
+			} else if !lib && len(fr) == 0 {
+				fr = append(fr, fn)
 			}
 		}
 		if len(fr) > 6 {
@@ -411,7 +413,7 @@ func runChild(p *Prop, tier string, seed uint64, cases []Case, variant string, i
 	cmd.Stderr = ef
 	cmd.Env = append(os.Environ(), "VERIF_CHILD=1", "VERIF_VARIANT="+variant, "VERIF_WORK="+work)
 	if variant == "race" {
-		cmd.Env = append(cmd.Env, "GORACE=halt_on_error=0 history_size=2 log_path="+base+".race")
+		cmd.Env = append(cmd.Env, "GORACE=halt_on_error=0 exitcode=0 history_size=2 log_path="+base+".race")
 	}
 	if variant == "asan" {
 		cmd.Env = append(cmd.Env, "ASAN_OPTIONS=detect_leaks=0:abort_on_error=0:halt_on_error=1")
@@ -511,7 +513,7 @@ loop:
 		if blocked && p.HangIsViolation {
 			agg.mu.Lock()
 			agg.Violations = append(agg.Violations, CaseViolation{Case: cases[open], V: Violation{
-				Key:  fmt.Sprintf("hang:%s", caseKey(cases[open])),
+				Key:  "hang:" + caseClass(p, cases[open]),
 				What: "scenario never finished: every library/harness goroutine is blocked (deadlock/hang)", Detail: summary}})
 			agg.mu.Unlock()
 		} else {
@@ -539,9 +541,11 @@ loop:
 	return rest
 }
 
-func caseKey(c Case) string {
-	c.Idx = 0
-	return JSON(c)
+func caseClass(p *Prop, c Case) string {
+	if p.CaseClass != nil {
+		return p.CaseClass(c)
+	}
+	return c.Kind
 }
 
 func recordCrash(agg *Agg, c Case, what, detail string) {
@@ -550,7 +554,7 @@ func recordCrash(agg *Agg, c Case, what, detail string) {
 	agg.Crashes++
 	if agg.Prop.CrashIsViolation {
 		agg.Violations = append(agg.Violations, CaseViolation{Case: c, V: Violation{
-			Key: "crash:" + crashSite(detail) + ":" + c.Kind, What: what, Detail: trim(detail, 6000)}})
+			Key: "crash:" + crashSite(detail) + ":" + caseClass(agg.Prop, c), What: what + " (" + caseClass(agg.Prop, c) + ")", Detail: trim(detail, 6000)}})
 	} else {
 		agg.Broken = append(agg.Broken, fmt.Sprintf("case %d (%s) crashed: %s: %s", c.Idx, c.Kind, what, trim(detail, 3000)))
 	}
@@ -562,7 +566,10 @@ var siteRe = regexp.MustCompile(`github\.com/paulmach/osm[^\s(]*\.[A-Za-z_(*).0-
 // that a crash is identified by its call site.
 func crashSite(detail string) string {
 	if m := siteRe.FindString(detail); m != "" {
-		return m
+		if i := strings.Index(m, "(0x"); i >= 0 {
+			m = m[:i]
+		}
+		return strings.TrimRight(m, "(")
 	}
 	return "unknown-site"
 }
@@ -586,7 +593,9 @@ func tailFile(path string, n int64) string {
 	return string(b)
 }
 
-var gorHead = regexp.MustCompile(`(?m)^goroutine (\d+) \[([^\]]+)\]:$`)
+// a SIGQUIT traceback prints "goroutine 1 gp=0xc000006 m=nil [semacquire]:", runtime.Stack prints
+// "goroutine 1 [semacquire]:"; accept both.
+var gorHead = regexp.MustCompile(`(?m)^goroutine (\d+) (?:gp=\S+ m=\S+ (?:mp=\S+ )?)?\[([^\]]+)\]:$`)
 
 // ClassifyDump inspects a goroutine dump: it reports whether every goroutine that runs
 // library or harness code is blocked for good (channel, select, semaphore, wait group),
@@ -804,7 +813,7 @@ func finish(agg *Agg, cases []Case, wall time.Duration) int {
 		dir := filepath.Join(Root, "replays", p.ID)
 		os.MkdirAll(dir, 0o755)
 		for i, cv := range fresh {
-			if i >= 25 {
+			if i >= 80 {
 				fmt.Printf("... %d further violations not written out\n", len(fresh)-i)
 				break
 			}
